@@ -84,6 +84,7 @@ class Run:
         global CUR
         self.seam = world.setup_frontend()
         install_observers()
+        world.gc_point()  # whatever the previous run left behind is finalised before this run's world exists
         world.wipe_sse()
         world.restore_repo_state()
         world.seed_randomness(seed)
@@ -112,6 +113,13 @@ class Run:
     def kill_server(self):
         self.ev("kill", self.server.name)
         self.sim.kill(self.server)
+
+    def maybe_gc(self, si):
+        """a plan-named garbage collection point (knob gc_every: 0 = never, k = before every k-th step)"""
+        k = self.knobs.get("gc_every", 0)
+        if k and si % k == 0:
+            world.gc_point()
+            self.sim.count("gc_point")
 
     def finish(self):
         global CUR
